@@ -351,7 +351,7 @@ class PreferenceProfile:
         # as a wildcard, so keying on Ballot objects made the grouping depend on ballot order
         for ballot in self.ballots:
             key = (
-                ballot.ranking,
+                ballot.ranking if ballot.ranking else None,
                 frozenset(ballot.scores.items()) if ballot.scores else None,
             )
             if key not in weight_accumulator:
@@ -396,7 +396,7 @@ class PreferenceProfile:
         def content_weights(pp):
             return {
                 (
-                    b.ranking,
+                    b.ranking if b.ranking else None,
                     frozenset(b.scores.items()) if b.scores else None,
                 ): b.weight
                 for b in pp.ballots
